@@ -62,6 +62,93 @@ def c04_extra(ROOT, tier, seed, sh, WORK):
     return out
 
 
+def _gen_traces(ROOT, WORK, name, seed, sh, profiles, count, extra=""):
+    import os, shutil
+    files = []
+    for k, prof in enumerate(profiles):
+        d = os.path.join(WORK, f"{name}_{k}")
+        shutil.rmtree(d, ignore_errors=True)
+        sh(f"{ROOT}/harness/harness gen -seed {seed + 17 * k} -profile {prof} -count {count} -out {d} {extra}")
+        files += [os.path.join(d, f) for f in sorted(os.listdir(d)) if f.endswith('.trace')]
+    return files
+
+
+def c13_extra(ROOT, tier, seed, sh, WORK):
+    """Determinism, implementation against implementation: the same history replayed in
+    separate processes (one with GOGC=1 and a goroutine forcing collections) and twice in
+    one process must print byte-identical raw output (handles, iteration order, events)."""
+    import os, subprocess
+    from concurrent.futures import ThreadPoolExecutor
+    out = {'violations': []}
+    count = 40 if tier == 'quick' else 500
+    files = _gen_traces(ROOT, WORK, 'c13', seed, sh, ['mixed', 'rel', 'cache', 'batch'], count)
+    env = dict(os.environ, GOGC='1')
+    H = os.path.join(ROOT, 'harness', 'harness')
+
+    def one(f):
+        a = subprocess.run([H, 'replay', '-raw', f], capture_output=True, text=True).stdout
+        b = subprocess.run([H, 'replay', '-raw', '-gc', f], capture_output=True, text=True, env=env).stdout
+        c = subprocess.run([H, 'replay', '-raw', '-twice', f], capture_output=True, text=True).stdout
+        halves = c.split("=====\n")
+        bad = None
+        if a != b:
+            bad = ('other process with forced GC', a, b)
+        elif len(halves) != 2 or halves[0] != halves[1]:
+            bad = ('second world in the same process', halves[0], halves[-1])
+        elif halves[0] != a:
+            bad = ('same history, another process', a, halves[0])
+        return f, bad, a.count("\nOP ")
+    with ThreadPoolExecutor(max_workers=12) as ex:
+        res = list(ex.map(one, files))
+    nops = 0
+    for f, bad, n in res:
+        nops += n
+        if bad and len(out['violations']) < 3:
+            what, x, y = bad
+            xl, yl = x.splitlines(), y.splitlines()
+            k = next((i for i in range(min(len(xl), len(yl))) if xl[i] != yl[i]), min(len(xl), len(yl)))
+            rp = os.path.join(ROOT, 'replays', 'C13-' + os.path.basename(os.path.dirname(f)) + '-' + os.path.basename(f))
+            open(rp, 'w').write(f"# property C13: output differs ({what}) at line {k}:\n#  run 1: {xl[k] if k < len(xl) else '<end>'}\n#  run 2: {yl[k] if k < len(yl) else '<end>'}\n" + open(f).read())
+            out['violations'].append({'replay': rp, 'cmd': 'replay', 'classes': ['nondeterminism'], 'chk': what})
+    out['determinism_histories'] = len(files)
+    out['determinism_replays'] = 4 * len(files)
+    out['determinism_ops'] = nops
+    return out
+
+
+def c19_extra(ROOT, tier, seed, sh, WORK):
+    """Isolation: groups of 8 histories replayed concurrently, one goroutine and one set of
+    worlds each, under the race detector; every output must equal the solo replay."""
+    import os, subprocess
+    out = {'violations': []}
+    sh("cd harness && go build -race -o harness_race .", timeout=900)
+    groups = 6 if tier == 'quick' else 80
+    files = _gen_traces(ROOT, WORK, 'c19', seed, sh, ['mixed', 'rel'], groups * 4)
+    H = os.path.join(ROOT, 'harness', 'harness')
+    HR = os.path.join(ROOT, 'harness', 'harness_race')
+    races = 0
+    for g in range(groups):
+        grp = files[g * 8:(g + 1) * 8]
+        if not grp:
+            break
+        p = subprocess.run([HR, 'par'] + grp, capture_output=True, text=True, env=dict(os.environ, GORACE='halt_on_error=0'))
+        race = 'DATA RACE' in p.stderr
+        for f in grp:
+            solo = subprocess.run([H, 'replay', '-raw', f], capture_output=True, text=True).stdout
+            par = open(f + '.par').read() if os.path.exists(f + '.par') else ''
+            if (par != solo or race or p.returncode not in (0, 66)) and len(out['violations']) < 3:
+                rp = os.path.join(ROOT, 'replays', 'C19-' + os.path.basename(os.path.dirname(f)) + '-' + os.path.basename(f))
+                open(rp, 'w').write("# property C19: " + ("data race reported:\n# " + p.stderr[:1500].replace("\n", "\n# ") if race else "concurrent replay differs from solo replay") + "\n# group: " + " ".join(grp) + "\n" + open(f).read())
+                out['violations'].append({'replay': rp, 'cmd': 'par', 'classes': ['race' if race else 'crosstalk'], 'chk': 'race' if race else 'crosstalk'})
+                if race:
+                    races += 1
+                    break
+    out['concurrent_groups'] = groups
+    out['concurrent_histories'] = len(files)
+    out['race_reports'] = races
+    return out
+
+
 PROPS = {
     'C01': {
         'budget': _merge(_p('core', 220, 4000), _p('mixed', 80, 2000)),
@@ -160,6 +247,14 @@ PROPS = {
         'own_ops': {'LISTEN'},
         'rule': "seeded histories (profile subs): random subscription masks (all 64) and component restrictions installed through listener.Callback, changed during the history; delivered events compared with the model's filtered stream",
     },
+    'C13': {
+        'budget': _merge(_p('mixed', 40, 400)),
+        'projection': [],
+        'own_ops': {'QSCAN', 'RM', 'XCHG', 'NEW'},
+        'extra': c13_extra,
+        'level': 'proof',
+        'rule': "histories (profiles mixed, rel, cache, batch) replayed raw (real handles, iteration order, event order) in a second process with GOGC=1 and a goroutine forcing GC, and twice in one process: outputs compared byte for byte, implementation against implementation",
+    },
     'C15': {
         'budget': _merge(_p('reset', 220, 4000), _p('cache', 40, 500)),
         'projection': [(r'.*', 'reset')],
@@ -181,6 +276,14 @@ PROPS = {
         'chk': [r'dump|load|JSON'],
         'own_ops': {'DUMP', 'LOAD'},
         'rule': "seeded histories (profile dump): dump, load into a fresh or reset twin world, shared continuation",
+    },
+    'C19': {
+        'budget': _merge(_p('mixed', 40, 400)),
+        'projection': [],
+        'own_ops': {'QSCAN', 'RM', 'XCHG', 'NEW'},
+        'extra': c19_extra,
+        'level': 'proof',
+        'rule': "groups of 8 histories replayed concurrently (one goroutine, one set of worlds each, different registration orders) in a -race build; each output compared with its solo replay; race detector reports counted",
     },
     'C20': {
         'budget': _merge(_p('res', 220, 4000)),
